@@ -175,7 +175,7 @@ def _def(out, d, base=0, inline=None, anonymous=False):
                                   ' extends ' + texpr(d.parent) if d.parent is not None else ''))
         out.doc(base + 1, d.doc)
         for t in d.tags:
-            _field(out, base + 1, t)
+            _field(out, base + 1, t, inline(d, t) if (inline is not None and t.type is not None) else None)
         _examples(out, base + 1, d.examples)
     elif isinstance(d, Alias):
         out.add(0, 'alias %s = %s' % (d.name, texpr(d.type)))
@@ -239,9 +239,11 @@ def inline_candidates(f):
     by_name = {d.name: d for d in f.defs if isinstance(d, (Struct, Union))}
     out = []
     for d in f.defs:
-        if not isinstance(d, Struct):
+        if not isinstance(d, (Struct, Union)):
             continue
-        for fld in d.fields:
+        for fld in (d.fields if isinstance(d, Struct) else d.tags):
+            if fld.type is None:
+                continue
             t = fld.type.inner if isinstance(fld.type, N) else fld.type
             if isinstance(t, R) and t.ns is None and t.name in by_name and t.name != d.name:
                 out.append((d.name, fld.name, t.name))
